@@ -13,7 +13,7 @@ class Sites:
         k = nd['k']
         if k == 'sub' and 'extent' in nd:
             ext = nd['extent'][0]
-            iv = A.peek(env, nd['c'][1])
+            iv = A.last_index[1] if A.last_index[0] == e and A.last_index[1] is not None else A.peek(env, nd['c'][1])
             rec = self.sub.setdefault(e, {'extent': ext, 'idx': None})
             from absint import join
             rec['idx'] = join(rec['idx'], iv)
